@@ -126,6 +126,11 @@ def classify_division(fn, div):
             return ('literal', float(d[1]) != 0.0, d[1])
         except ValueError:
             pass
+    x = d[1] if d[0] == 'cast' else d
+    x = norm(x)
+    if x[0] == 'call' and short(x[1]) == 'get' and 'NonZero' in x[1]:
+        # the value of a NonZero integer: non-zero by construction (the type's invariant), as an integer and as a float
+        return ('guarded', True, 'NonZero::get(): non-zero by the type\'s invariant (line %s)' % div.get('line'))
     g = nonzero_guard(fn, div['bi'], den)
     if g is not None:
         return ('guarded', True, '%s on the %s edge of the test at line %s' % (g['kind'], g.get('truth'), g['line']))
